@@ -1034,6 +1034,9 @@ EXTRACTORS["C19"] = EXTRACTORS["C19"] + [GEN_SRC["SrcSdpkpp"]]
 GEN_SRC.update({n: gen_src(n) for n in ("SrcKmerMatches",)})
 EXTRACTORS["C19"] = EXTRACTORS["C19"] + [GEN_SRC["SrcKmerMatches"]]
 
+GEN_SRC.update({n: gen_src(n) for n in ("SrcQGramExact",)})
+EXTRACTORS["C19"] = EXTRACTORS["C19"] + [GEN_SRC["SrcQGramExact"]]
+
 # additive registrations (kept outside the dict literal so that concurrent edits merge)
 EXTRACTORS["C03"] = EXTRACTORS["C03"] + [gen_saiswidth]
 THEOREMS["SaisWidth"] = ["RbV.Thm.C03.sais_width_arms_fit", "RbV.Thm.C03.sais_reduced_width_fits",
